@@ -192,6 +192,33 @@ def oracle_strx(table):
     return None
 
 
+def shared_editor_stream(cases):
+    from richchk.editor.chk.decoded_str_section_editor import DecodedStrSectionEditor
+    from richchk.editor.chk.decoded_strx_section_editor import DecodedStrxSectionEditor
+    shared = {2: DecodedStrSectionEditor(), 4: DecodedStrxSectionEditor()}
+    call = {2: lambda e, req, t: e.add_strings_to_str_section(req, t), 4: lambda e, req, t: e.add_strings_to_strx_section(req, t)}
+    hist = {2: [], 4: []}
+    for w, table, req in cases:
+        _, _, fresh_add = classes(w)
+        fresh = vlib.impl_result(lambda: tbl(fresh_add(req, mk(w, table))))
+        hist[w].append([table, req])
+        sh = vlib.impl_result(lambda: tbl(call[w](shared[w], req, mk(w, table))))
+        if fresh[0] == 1:
+            # a table that grew, handed back to the same editor (offsets shift by the new ids)
+            grown = mk(w, fresh[1])
+            more = req[:1] + ["zz" + (req[0] if req else "q")]
+            hist[w].append([list(fresh[1]), more])
+            f2 = vlib.impl_result(lambda: tbl(fresh_add(more, grown)))
+            s2 = vlib.impl_result(lambda: tbl(call[w](shared[w], more, mk(w, fresh[1]))))
+            if f2 != s2:
+                return (f"an editor object used for several calls answers differently from a fresh editor: {str(s2)[:120]} "
+                        f"instead of {str(f2)[:120]}", w, hist[w][-30:])
+        if fresh != sh:
+            return (f"an editor object used for several calls answers differently from a fresh editor: {str(sh)[:120]} "
+                    f"instead of {str(fresh)[:120]}", w, hist[w][-30:])
+    return None
+
+
 def gen_cases(rng, n):
     cases = []
     for i in range(n):
@@ -242,6 +269,12 @@ def run(ck: vlib.Check):
             ck.violation(f"{bad}", {"kind": "add", "w": w, "table": table, "request": req,
                                     "detail": oracle(w, table, req)}, True)
             break
+    # histories on ONE editor object: whatever an editor remembers from earlier calls (on other tables, or on the
+    # table before it grew) must not change what it answers - the answer of a fresh editor is the reference
+    bad_hist = shared_editor_stream(cases[: (400 if ck.tier == "quick" else 8000)])
+    ck.evaluations += min(len(cases), 400 if ck.tier == "quick" else 8000)
+    if bad_hist:
+        ck.violation(bad_hist[0], {"kind": "history", "w": bad_hist[1], "history": bad_hist[2]}, True)
     for w, table, req in cases[: n // 3]:
         if w == 2:
             bad = oracle_strx(table)
@@ -295,6 +328,20 @@ def shrink(w, table, req):
 
 def replay(path: str) -> int:
     rp = json.loads(Path(path).read_text())
+    if rp.get("kind") == "history":
+        w = rp["w"]
+        cases = [(w, (t[0], t[1], t[2]), r) for t, r in rp["history"]]
+        from richchk.editor.chk.decoded_str_section_editor import DecodedStrSectionEditor
+        from richchk.editor.chk.decoded_strx_section_editor import DecodedStrxSectionEditor
+        ed = DecodedStrSectionEditor() if w == 2 else DecodedStrxSectionEditor()
+        bad = False
+        for _, table, req in cases:
+            _, _, fresh_add = classes(w)
+            fresh = vlib.impl_result(lambda: tbl(fresh_add(req, mk(w, table))))
+            sh = vlib.impl_result(lambda: tbl((ed.add_strings_to_str_section if w == 2 else ed.add_strings_to_strx_section)(req, mk(w, table))))
+            bad = bad or fresh != sh
+        print("still failing" if bad else "no longer failing")
+        return 1 if bad else 0
     print("replaying:", rp.get("what"))
     if rp.get("kind") == "add":
         t = rp["table"]
